@@ -11,10 +11,11 @@ class Engine(DbEngine):
     prop = 'C18'
     profiles = ('debug',)
     weights = {'new': 6, 'addr': 2, 'delete': 1, 'remove': 5, 'vanish': 2.5, 'giftwrap': 3, 'resubmit': 3, 'qown': 1, 'ghost': 0.5}
-    aspects = {'addrs.find', 'stats.del', 'vanish', 'addrs.asof', 'store.result', 'stats.main', 'ids.del', 'ids.hash', 'remove', 'extra', 'ids.has'}
+    aspects = {'addrs.find', 'stats.del', 'vanish', 'addrs.asof', 'store.result', 'stats.main', 'ids.del', 'ids.hash', 'remove', 'extra', 'ids.has', 'query'}
+    ghost_sweep = True
     quick = (200, 35)
     thorough = (5000, 80)
-    rule = 'removal/vanish-heavy histories: targets present / absent / already removed; authors with 0..many events across all kind classes; gift wraps (kind 1059) naming the author in the first p tag, a second p tag, as a non-first value, in upper-case hex, and kind-1 look-alikes; resubmission after removal; ephemeral kinds 20000/29999. oracle: exactly the targets disappear (ids/markers/extra equal the abstract store), removed events are accepted again, ephemeral events are never retrievable. non-trivial = history with >= 2 stores. Plus the arrival order that only exists with two callers: an event is stored by one thread while another removes it (by id, or by vanishing its author) under the schedule controller; when both have returned the event is resubmitted: whatever the interleaving it must then be retrievable and unmarked (removal leaves nothing behind that could refuse it)'
+    rule = 'removal/vanish-heavy histories: targets present / absent / already removed; authors with 0..many events across all kind classes; gift wraps (kind 1059) naming the author in the first p tag, a second p tag, as a non-first value, in upper-case hex, and kind-1 look-alikes; resubmission after removal; ephemeral kinds 20000/29999. oracle: exactly the targets disappear (ids/markers/extra equal the abstract store), removed events are accepted again, ephemeral events are never retrievable BY ID OR BY QUERY (every query of a history is judged: returned events are retrievable, matching, newest first, complete up to the limit); class ghost-sweep: every awkward tag shape (empty / nameless / valueless / repeated / long-named tag before an indexed one) x every way of taking an event out (remove, deletion request, replacement, vanish), then a query through every access path. non-trivial = history with >= 2 stores. Plus the arrival order that only exists with two callers: an event is stored by one thread while another removes it (by id, or by vanishing its author) under the schedule controller; when both have returned the event is resubmitted: whatever the interleaving it must then be retrievable and unmarked (removal leaves nothing behind that could refuse it)'
     trusted = DbEngine.db_trusted
     assumptions = []
     races = {'quick': 120, 'thorough': 2500}
